@@ -5,8 +5,39 @@ import re
 from .. import gen, impl
 
 
-def make_sentence(rng, tag):
-    s = gen.render(gen.payload_bits(rng, rng.choice(['MessageType1', 'MessageType18', 'MessageType27'])))[0]
+class Bodies:
+    """bare AIS sentences to put behind the tag blocks: fresh single sentences, a repetition of the
+    previous body (two different lines may carry the same AIS sentence, e.g. relayed twice), and the
+    fragments of multi-fragment messages (a group is very often the fragments of one message, but
+    its boundaries need not coincide with the message's)"""
+
+    def __init__(self, rng, plain=False):
+        self.rng, self.plain = rng, plain
+        self.last = None
+        self.pending = []
+        self.seq = 0
+
+    def next(self):
+        rng = self.rng
+        r = 0.0 if self.plain else rng.random()
+        if r < 0.15 and self.last is not None:
+            return self.last
+        if r < 0.45:
+            if not self.pending:
+                n = rng.randint(2, 3)
+                bits = gen.payload_bits(rng, 'MessageType8', length=rng.randint(150, 400))
+                payload, _ = gen.armor(bits)
+                cuts = sorted(rng.sample(range(1, len(payload)), n - 1))
+                self.seq = (self.seq + 1) % 10
+                self.pending = gen.render(bits, seq=str(self.seq), chan=rng.choice('AB'), cuts=cuts)
+            self.last = self.pending.pop(0)
+            return self.last
+        self.last = gen.render(gen.payload_bits(rng, rng.choice(['MessageType1', 'MessageType18', 'MessageType27'])))[0]
+        return self.last
+
+
+def make_sentence(rng, tag, bodies=None):
+    s = (bodies or Bodies(rng, plain=True)).next()
     return (gen.tag_block(tag) + s) if tag is not None else s
 
 
@@ -26,15 +57,16 @@ def schedule_cases(rng, tier):
         sizes_list += [(3, 3, 3), (4, 2), (2, 2, 3)]
     for sizes in sizes_list:
         groups = []
+        bodies = Bodies(rng, plain=(len(cases) % 2 == 0))
         gids = rng.sample(GID_POOL, len(sizes))
         if sizes in ((2,), (3,), (2, 2)):
             gids[0] = 0              # group id 0 is an ordinary id
         for gi, t in enumerate(sizes):
             gid = gids[gi]
-            sents = [make_sentence(rng, b'g:%d-%d-%d,s:x%d' % (i + 1, t, gid, i)) for i in range(t)]
+            sents = [make_sentence(rng, b'g:%d-%d-%d,s:x%d' % (i + 1, t, gid, i), bodies) for i in range(t)]
             groups.append((gid, t, sents))
-        ungrouped = make_sentence(rng, None)
-        tagged_nogroup = make_sentence(rng, b's:plain,c:123')
+        ungrouped = make_sentence(rng, None, bodies)
+        tagged_nogroup = make_sentence(rng, b's:plain,c:123', bodies)
         seq_variants = []
         for gid, t, sents in groups:
             orders = [[sents[0]] + list(p) for p in itertools.permutations(sents[1:])]
@@ -55,6 +87,7 @@ def schedule_cases(rng, tier):
     for _ in range(200 if tier == 'quick' else 5000):
         ng = rng.randint(1, 5)
         seqs, tots = [], {}
+        bodies = Bodies(rng, plain=rng.random() < 0.3)
         gids = rng.sample(GID_POOL + list(range(200, 210)), ng)
         for gi in range(ng):
             t = rng.randint(1, 6)
@@ -62,12 +95,12 @@ def schedule_cases(rng, tier):
             tots[gid] = t
             # leading zeros are legal decimal renderings of the same numbers
             fmt = rng.choice([b'g:%d-%d-%d', b'g:%d-%d-%d', b'g:%02d-%02d-%05d', b's:st,g:%d-%d-%d,n:7'])
-            sents = [make_sentence(rng, fmt % (i + 1, t, gid)) for i in range(t)]
+            sents = [make_sentence(rng, fmt % (i + 1, t, gid), bodies) for i in range(t)]
             rest = sents[1:]
             rng.shuffle(rest)
             seqs.append([(s, gid) for s in [sents[0]] + rest])
         for _ in range(rng.randint(0, 3)):
-            seqs.append([(make_sentence(rng, rng.choice([None, b's:a', b'n:5,s:b'])), None)])
+            seqs.append([(make_sentence(rng, rng.choice([None, b's:a', b'n:5,s:b']), bodies), None)])
         cases.append(('random', gen.random_interleaving(rng, seqs), tots))
     return cases
 
